@@ -9,9 +9,10 @@ CLAIM = ('Decides statically for every program word, configuration block and reg
          'position (384 x longest encoding + soft-AES tail) never reaches the SuperscalarHash routine and the longest SuperscalarHash never reaches the epilogue; every copy into the code buffer is accounted '
          'for; layout constants shared with the .S file agree; the hashing API passes exactly (input, inputSize) and 32 output bytes. Addresses formed inside hand-written asm and emitted code are trusted '
          '(their mask constants are cross-checked).'
-         ' The same code-size bound is decided for the A64 back-end (per-instruction code + literals against the reserve of the assembled template) and the RV64 back-end (instruction area + largest handler path x RANDOMX_PROGRAM_MAX_SIZE + template tail <= buffer), and every RV64 IMUL_RCP literal is stored inside the 4 KiB pool where the emitted load reads it.')
+         ' The same code-size bound is decided for the A64 back-end (per-instruction code + literals against the reserve of the assembled template) and the RV64 back-end (instruction area + largest handler path x RANDOMX_PROGRAM_MAX_SIZE + template tail <= buffer), and every RV64 IMUL_RCP literal is stored inside the 4 KiB pool where the emitted load reads it.'
+         ' BIND-EXCL (a light VM must ignore setDataset, else it reads the dataset object as a cache) and AES-COVER (the AES loops touch exactly the blocks of their buffer) are included.')
 LEVEL_NOTE = 'Trusted: clang AST; the assembled object of jit_compiler_x86_static.S reflects the fragments memcpy\'d at run time; SuperscalarProgram::getSize() <= SuperscalarMaxSize (rule SS-SIZE in C09).'
-EXPLANATION = 'MEM-MASKSET, MEM-ADDRFORM, MEM-SPADDR, MEM-DSBOUND, CG-SIZE-X86 (D-size), CG-LAYOUT, API-IO, B2-INBOUND. CG-SIZE-A64, CG-SIZE-RV64, RV-RCPPOOL.'
+EXPLANATION = 'MEM-MASKSET, MEM-ADDRFORM, MEM-SPADDR, MEM-DSBOUND, CG-SIZE-X86 (D-size), CG-LAYOUT, API-IO, B2-INBOUND. CG-SIZE-A64, CG-SIZE-RV64, RV-RCPPOOL. BIND-EXCL, AES-COVER.'
 
 
 def run(ctx, R):
